@@ -174,8 +174,17 @@ def run(C, R):
             ps = E.run(pubf['path'])
             R.add_paths(pubf['path'], len(ps))
             hit = any(any(e['k'] == 'call' and e['callee'].endswith('EventState::' + nm) for e in p.events) for p in ps)
+            def _nothing_to_do(p, nm=nm):
+                # the path looked at the flag under the lock and saw the value this operation would establish:
+                # the state's own set()/reset() is a no-op then (R1 / R2)
+                want = 1 if nm == 'set' else 0
+                for k_, v_ in p.facts.items():
+                    if isinstance(k_, tuple) and k_[0] == 'init' and isinstance(k_[1], tuple) and '<locked>' in k_[1] \
+                            and loc_endswith(k_[1], 'is_set') and v_ == ('eq', want):
+                        return any(e['k'] == 'lock' for e in p.events)
+                return False
             allp = all(any(e['k'] == 'call' and e['callee'].endswith('EventState::' + nm) for e in p.events)
-                       for p in ps if p.exit == 'return')
+                       or _nothing_to_do(p) for p in ps if p.exit == 'return')
             if hit and allp:
                 R.ok('C14.R4', '%s forwards' % pubf['path'])
             else:
